@@ -1822,8 +1822,9 @@ func (this *decodingTask) decode(res *decodingTaskResult) {
 		// Unblock other tasks
 		if res.err != nil || (res.decoded == 0 && res.skipped == false) {
 			atomic.StoreInt32(this.processedBlockID, _CANCEL_TASKS_ID)
-		} else if atomic.LoadInt32(this.processedBlockID) == this.currentBlockID-1 {
-			atomic.StoreInt32(this.processedBlockID, this.currentBlockID)
+		} else {
+			// Do not overwrite a cancellation posted concurrently by another task
+			atomic.CompareAndSwapInt32(this.processedBlockID, this.currentBlockID-1, this.currentBlockID)
 		}
 
 		this.wg.Done()
@@ -1886,8 +1887,9 @@ func (this *decodingTask) decode(res *decodingTaskResult) {
 	}
 
 	// After completion of the bitstream reading, increment the block id.
-	// It unblocks the task processing the next block (if any)
-	atomic.StoreInt32(this.processedBlockID, this.currentBlockID)
+	// It unblocks the task processing the next block (if any).
+	// A previous task may have failed (and cancelled) in the meantime: do not overwrite the cancellation.
+	atomic.CompareAndSwapInt32(this.processedBlockID, this.currentBlockID-1, this.currentBlockID)
 
 	// Check if the block must be skipped
 	if v, hasKey := this.ctx["from"]; hasKey {
